@@ -13,7 +13,7 @@ lvl={
  'C06':('exploration','repeated-execution statistics (binomial balance test with fixed tail bound), canary search, bit-position disclosure test over 64 executions, GF(2) solve of the peer\'s linear view, curious OT-extension sender, uniqueness over generated executions'),
  'C07':('fault_enumeration','pool scan (1-, 2-, 3-subset XOR search, curious-evaluator row probe, repeated-field test) over generated honest runs (incl. multi-batch circuits) and enumerated deviations'),
  'C08':('fault_enumeration','systematic enumeration of byte/tree mutations, drops, duplicates and crash points for every message, plus mutations below the encryption (garbled-row plaintext) and of committed strings; libFuzzer target c08_msg and a run on a build without debug assertions in the thorough tier'),
- 'C09':('exploration','metamorphic property-based testing: traffic shape equal across executions of one public configuration'),
+ 'C09':('exploration','metamorphic property-based testing: traffic shape equal across executions of one public configuration; garbled-row ciphertext length equal across value-magnitude classes (proptest, hook garble_row_roundtrip)'),
  'C10':('exploration','property-based testing of the preprocessing relations through plain-typed wrappers'),
  'C11':('exploration','systematic length enumeration + property-based testing of correlated OT'),
  'C12':('exploration','schedule exploration (random, PCT, starvation, lazy delivery, choice vectors; sends accepted by the scheduler) with exact deadlock detection and a one-operation-per-peer monitor'),
